@@ -2,4 +2,5 @@
 EXTENDS TPConc
 MCCallers == @CALLERS@
 MCInit == @INIT@
+MCReent == @REENT@
 =============================================================================
